@@ -34,7 +34,8 @@ class TreeRunner:
         self.uni = uni or engine.Universe()
         self.bounds = bounds or Bounds()
         self.doc = SymDoc(self.uni, 'doc', self.bounds)
-        self.doc.as_object = as_object
+        if as_object:
+            self.doc.as_object = True
         self.ex = ck.new_engine(self.prog, uni=self.uni)
 
     def evaluate(self, rj):
